@@ -5,7 +5,7 @@ import types
 
 import rtflite.strwidth as sw
 from vf.fakes import Stub as NS
-from vf.hlib import ModuleState
+from vf.hlib import ModuleState, swapped
 
 _STATE = ModuleState(sw)
 
@@ -76,12 +76,12 @@ def run_measurements(todo, k=None, other=None):
                 hooked.__wrapped__ = orig
                 return hooked
             setattr(sw, name, make(obj))
-    saved_if = sw.ImageFont
-    sw.ImageFont = NS(truetype=truetype)
+    saved_if = swapped((__import__("PIL.ImageFont", fromlist=["x"]), NS(truetype=truetype)))
+    saved_if.__enter__()
     try:
         res = [sw.get_string_width(text, font=font, font_size=size, unit="px") for font, size, text in todo]
     finally:
-        sw.ImageFont = saved_if
+        saved_if.__exit__()
         for name, obj in saved_funcs.items():
             setattr(sw, name, obj)
     return res, (b_result[0] if b_result else None), counter["n"]
